@@ -1,3 +1,4 @@
+import AmVerif.Gen.Skel
 import AmVerif.Gen.Tables
 import AmVerif.Lemmas.IsoTok
 /-!
@@ -288,5 +289,11 @@ condition after every wake-up in both lock implementations: `Answers` shares one
 `hot_reload` callers and the reloader and wakes with `notify_all`, so the model's "a waiter proceeds only when its
 own condition holds" is this fact. -/
 theorem C07_wait_while_rechecks : waitWhileRechecksStd = true ∧ waitWhileRechecksParkingLot = true := by decide
+
+/-- Both maps (sharded `AssetCache`, single-threaded `LocalAssetCache`) insert with `entry(key).or_insert(entry)` inside one
+lock / borrow scope: the first entry for a key survives, handles that were given out stay valid, a late entry is dropped. -/
+theorem C07_insert_keeps_first :
+    AmVerif.Gen.skel_cache_AssetMap_for_AssetMap_insert = [.call .s_get_shard, .acq .s_write 0, .call .s_entry, .call .s_or_insert, .rel 0] ∧
+    AmVerif.Gen.skel_local_cache_AssetMap_for_AssetMap_insert = [.acq .s_borrow_mut 0, .call .s_entry, .call .s_or_insert, .rel 0] := ⟨rfl, rfl⟩
 
 end AmVerif.Props.C07
